@@ -93,6 +93,8 @@ type Node struct {
 	Cap     int                     // max headers per reply
 	// scripting knobs
 	DisconnectAtMsg int              // close the FIRST connection when its n-th message arrives (0 = never)
+	DropAfterHeight int              // close the connection right after sending the first getheaders answer that contains this height (0 = never)
+	droppedAfter    bool
 	StallAfterMsg   int              // on every connection: stop answering getheaders after the n-th message (0 = never)
 	MaxAccepts      int              // stop accepting after n connections (0 = unlimited)
 	MaxLive         int              // at most n simultaneously open connections; further dials are refused by the rig (0 = unlimited)
@@ -125,6 +127,8 @@ type Conn struct {
 	dead       int32
 	pushed     int32
 	peerKnown  int32 // highest height of the node's chain the service is known to have
+	lastStart  int32 // range of the last getheaders answer (read loop only)
+	lastEnd    int32
 	pongs      chan uint64
 	hdrReplies chan *wire.MsgHeaders // headers messages received from the service (the node asked with getheaders)
 	handshake  chan struct{}
@@ -139,6 +143,18 @@ func NewNode(name, ip string, netw wire.BitcoinNet, genesis refmodel.Hash, chain
 }
 
 func (n *Node) setChainLocked(chain []refmodel.Hdr) {
+	// a reorganisation of the node's own chain: what the peer is known to have of it ends at the fork point
+	common := 0
+	for common < len(chain) && common < len(n.chain) && chain[common] == n.chain[common] {
+		common++
+	}
+	if common < len(n.chain) {
+		for _, c := range n.conns {
+			if atomic.LoadInt32(&c.peerKnown) > int32(common) {
+				atomic.StoreInt32(&c.peerKnown, int32(common))
+			}
+		}
+	}
 	n.chain = append([]refmodel.Hdr(nil), chain...)
 	n.height = map[refmodel.Hash]int32{n.genesis: 0}
 	for i, h := range n.chain {
@@ -450,6 +466,16 @@ func (c *Conn) loop() {
 				return
 			}
 			n.mu.Lock()
+			dropNow := n.DropAfterHeight > 0 && !n.droppedAfter && c.lastStart < int32(n.DropAfterHeight) && int32(n.DropAfterHeight) <= c.lastEnd
+			if dropNow {
+				n.droppedAfter = true
+			}
+			n.mu.Unlock()
+			if dropNow {
+				c.Close(fmt.Sprintf("scripted disconnect right after the reply that contains height %d", n.DropAfterHeight))
+				return
+			}
+			n.mu.Lock()
 			push, pinfo := n.PushAfterReply, n.PushInfo
 			n.mu.Unlock()
 			n.mu.Lock()
@@ -500,6 +526,7 @@ func (c *Conn) answerGetHeaders(m *wire.MsgGetHeaders) error {
 		reply.Headers = append(reply.Headers, WireHeader(n.chain[h-1]))
 	}
 	n.mu.Unlock()
+	c.lastStart, c.lastEnd = start, end
 	if start > atomic.LoadInt32(&c.peerKnown) {
 		atomic.StoreInt32(&c.peerKnown, start)
 	}
